@@ -279,8 +279,12 @@ func (e *Engine) Load(name string) (*Template, error) {
 			// Collect loader errors for better diagnostics
 			loaderErrors = append(loaderErrors, fmt.Errorf("loader %T: %w", loader, err))
 			if !errors.Is(err, ErrTemplateNotFound) && loader.Exists(name) {
+				// This loader has the template and could not deliver it. The first loader
+				// that has a name decides: a later loader's template of the same name must
+				// not stand in for the failure
 				loadFailed = true
 				loadFailures = append(loadFailures, fmt.Errorf("loader %T: %w", loader, err))
+				break
 			}
 			continue
 		}
